@@ -244,7 +244,10 @@ func (b *Broker[T]) Populate(iter *fun.Iterator[T]) fun.Worker {
 
 // Stats provides introspection into the current state of the broker.
 func (b *Broker[T]) Stats(ctx context.Context) BrokerStats {
-	signal := make(chan BrokerStats)
+	// the reply is buffered: a caller whose context expires after the
+	// request was accepted must not leave the event loop blocked on
+	// the reply forever.
+	signal := make(chan BrokerStats, 1)
 	var output BrokerStats
 	select {
 	case <-ctx.Done():
